@@ -776,6 +776,7 @@ static void do_loop_cond_number () {
 #ifdef NEOLITH_VERIF
 /* verification hook: instruction counter and control/value stack high-water marks (read by the harness) */
 long long verif_insn_count = 0;
+unsigned long verif_op_hist[256];	/* executions per opcode since the harness cleared it */
 long verif_max_csp = -1;
 long verif_max_sp = -1;
 #endif
@@ -806,6 +807,7 @@ void eval_instruction (const char *p) {
       instruction = EXTRACT_UCHAR (pc++);
 #ifdef NEOLITH_VERIF
       verif_insn_count++;
+      verif_op_hist[instruction & 255]++;
       if (csp - control_stack > verif_max_csp)
         verif_max_csp = (long)(csp - control_stack);
       if (sp - start_of_stack > verif_max_sp)
